@@ -2096,6 +2096,11 @@ func shiftDot(text string, dotOffset int) (string, bool) {
 	// Does this number have no fractional component?
 	if dot >= len(text) {
 		trailingZeros := strings.Repeat("0", dot-len(text))
+		if text == "" && trailingZeros == "" {
+			// All digits were zeros and have been stripped (e.g. "000" shifted
+			// by -3): keep one digit so the result is still a number
+			trailingZeros = "0"
+		}
 		return fmt.Sprintf("%s%s%s", sign, text, trailingZeros), true
 	}
 
